@@ -289,7 +289,15 @@ func filterJoin(ctx stick.Context, val stick.Value, args ...stick.Value) stick.V
 	return strings.Join(slice, separator)
 }
 
-func filterJSONEncode(ctx stick.Context, val stick.Value, args ...stick.Value) stick.Value {
+func filterJSONEncode(ctx stick.Context, val stick.Value, args ...stick.Value) (res stick.Value) {
+	// json.Marshal passes on a panic raised while it calls a MarshalJSON or
+	// MarshalText method, as happens when the method is promoted from an
+	// embedded pointer that is nil: such a value cannot be encoded.
+	defer func() {
+		if recover() != nil {
+			res = nil
+		}
+	}()
 	// TODO: implement flags
 	jsonData, err := json.Marshal(val)
 	if err != nil {
